@@ -265,6 +265,17 @@ def _grid(R, rng, ctx):
     X[1::2, -1] *= 12.0  # outlier readings: rejected for small thresholds, used for large / disabled
     mode = ("fields", "config1", "single", "config2")[ctx.get("_unit_i", 0) % 4]
     R.stats.inc(f"grid_mode_{mode}")
+    if mode == "fields":
+        # candidate values as any sequence scikit-learn accepts: tuple, numpy array (np.linspace-style)
+        if "max_dt_sec" not in grid:
+            grid["max_dt_sec"] = rng.sample([v for v in pool["max_dt_sec"] if v != defaults["max_dt_sec"]], 2)
+        for k in list(grid):
+            if all(isinstance(v, float) for v in grid[k]):
+                grid[k] = np.array(grid[k])
+                R.stats.inc("grid_values_given_as_ndarray")
+            else:
+                grid[k] = tuple(grid[k])
+                R.stats.inc("grid_values_given_as_tuple")
     if mode == "single":
         # some hyper-parameters offer no choice (one value, not the default)
         for k in ("max_dt_sec", "common_subexpression_elimination"):
